@@ -29,8 +29,8 @@ CHECKS = {
  "C14": ("fault_enumeration", "runtime monitor: junk insertion at every tag boundary, next()/try_recover()/next() driven on the real iterator, differential against the undamaged parse",
          "At every tag boundary of valid known-size documents a junk run (1-40 bytes that cannot start any id of the specification) is inserted; when the following tag still fits its known-size ancestors the items before are unchanged, exactly one error is reported, try_recover() succeeds and the remaining items equal the undamaged parse shifted by the junk length; always: try_recover() never panics, never moves backwards and fails only with EOF/ReadError.",
          "layout from the reference decoder decides the precondition", "DESIGN.md §5 C14"),
- "C17": ("exploration", "runtime monitor: counting global allocator measuring per-call heap growth and largest request; allocation ceiling turning runaway requests into reports",
-         "Hostile headers (declared sizes 0..2^56-2 in every width, all element types, root / known / unknown parents, payload absent or partial) are parsed under limits {0,5,4096,64K,1M,default}, capacities {16,4096,65536} and all tolerance subsets while the counting allocator measures every next()/try_recover(): growth and largest request stay within 16*max(B,capacity,64K)+1MiB, over-limit elements are rejected by a header check, no panic/overflow.",
+ "C17": ("exploration", "runtime monitor: counting global allocator measuring per-call heap growth and largest request; allocation ceiling turning runaway requests into reports; valgrind massif cross-check of curated cases (thorough)",
+         "Hostile headers (declared sizes 0..2^56-2 in every width, all element types, root / known / unknown parents, payload absent or partial) are parsed under limits {0,5,4096,64K,1M,default}, capacities {16,4096,65536} and all tolerance subsets while the counting allocator measures every next()/try_recover(): growth and largest request stay within 16*max(B,capacity)+64KiB, an element within the limit is not rejected by the size check, over-limit elements are rejected by a header check, no panic/overflow; a long valid stream is measured over the whole parse (memory creep); in the thorough tier eight curated cases are replayed under valgrind massif and must satisfy the same bound.",
          "constant 16 deliberately loose; limit None not exercised; default-limit acceptance only up to 64 MiB", "DESIGN.md §5 C17"),
  "C20": ("exploration", "runtime monitor: TagIteratorAsync driven by a scripted AsyncRead on a single-threaded executor, differential against the blocking iterator; starvation classified by replaying the schedule through a gated blocking source",
          "For each input and buffered set the async iterator (next() loop and Stream adapter) is driven with many delivery schedules (all partitions of inputs <= 8/10 bytes, k-byte, 1-byte, random, Pending every k-th poll, inputs across the 64 KiB transfer buffer) and compared item by item and offset by offset with the blocking iterator; schedules where the inner iterator would see EOF before the producer is done are the open known finding C20/starved-read, all others must agree.",
